@@ -7,7 +7,7 @@ from ..cfg import cfg_of
 from ..model import FunctionInfo, bind_args
 from ..roles import roles_of
 from ..terms import call_name, canon, conjuncts, const_num, guard_of, norm_stmt, state_key
-from .common import attr_stores, deref_expr, iter_stores, reaching_assignments, self_attr_of, store_base
+from .common import attr_stores, deref_expr, iter_stores, reaching_assignments, self_attr_of, store_base, pos
 from .points import POINT_SLOTS, FilterSummary, PointAnalysis
 
 EXPLANATION = (
@@ -222,7 +222,7 @@ def check(ctx):
             b = store_base(t)
             if isinstance(b, ast.Name) and b.id == u0:
                 sn = cfg2.node_of(s)
-                if sn is not None and not (tn.id in cfg2.reachable(sn.id)) or (sn is not None and sn.id in cfg2.reachable(tn.id) and sn.id != tn.id and s.lineno > found2.lineno):
+                if sn is not None and not (tn.id in cfg2.reachable(sn.id)) or (sn is not None and sn.id in cfg2.reachable(tn.id) and sn.id != tn.id and pos(s) > pos(found2)):
                     bad.append(s)
             if canon(t) in POINT_SLOTS and v is not None and u0 in {n.id for n in ast.walk(v) if isinstance(n, ast.Name)}:
                 slot_src = True
